@@ -8,7 +8,7 @@ set -u
 prop=$1; ch=$2; tier=${3:-quick}; shift; shift; shift 2>/dev/null
 more="$*"
 wt=/tmp/seed-$prop
-out=$wt/OUT/$ch
+out=$wt/${SEED_OUT:-OUT}/$ch
 here=$(cd "$(dirname "$0")/.." && pwd)
 export GOPROXY=off GOSUMDB=off GOTOOLCHAIN=local
 cd "$wt" || exit 2
